@@ -29,6 +29,9 @@ func NewPeerSet(discover *p2p.DiscoverManager, dm *deputynode.Manager) *peerSet 
 
 // Size set's length
 func (ps *peerSet) Size() int {
+	ps.lock.RLock()
+	defer ps.lock.RUnlock()
+
 	return len(ps.peers)
 }
 
@@ -142,6 +145,9 @@ func (ps *peerSet) BestToFetchConfirms(height uint32) (p *peer) {
 
 // DeputyNodes filter deputy node
 func (ps *peerSet) DeputyNodes(height uint32) []*peer {
+	ps.lock.RLock()
+	defer ps.lock.RUnlock()
+
 	peers := make([]*peer, 0)
 	for _, p := range ps.peers {
 		if ps.dm.IsNodeDeputy(height, p.NodeID()[:]) {
@@ -199,6 +205,9 @@ func (ps *peerSet) appendPeerByDistance(peers, deputyNodePeers []*peer, currentH
 
 // DelayNodes filter delay node
 func (ps *peerSet) DelayNodes(height uint32) []*peer {
+	ps.lock.RLock()
+	defer ps.lock.RUnlock()
+
 	peers := make([]*peer, 0)
 	for _, p := range ps.peers {
 		if ps.dm.IsNodeDeputy(height, p.NodeID()[:]) == false {
@@ -210,6 +219,9 @@ func (ps *peerSet) DelayNodes(height uint32) []*peer {
 
 // LatestStableHeight get peer's latest stable block's height
 func (ps *peerSet) LatestStableHeight() uint32 {
+	ps.lock.RLock()
+	defer ps.lock.RUnlock()
+
 	height := uint32(0)
 	for _, p := range ps.peers {
 		if p.lstStatus.StaHeight > height {
